@@ -1,4 +1,5 @@
 import WalrusVerif.Model.Adapter
+import WalrusVerif.Lemmas.PlaneLog
 /-!
 # C19 — all nodes apply the same metadata commands in the same order  (partial)
 
@@ -24,6 +25,9 @@ correspondence run, and is what these theorems are about:
 * `C19_responders_do_not_matter` - the node that proposed an entry (it answers the client) and the nodes that
   received it by replication end in the same state;
 * `C19_last_applied_is_last_fed` - the id reported to openraft as applied is the id of the last entry looked at.
+
+* `C19_plane_nodes_apply_prefixes_of_one_log` - inside the data-plane model (C22/C23), for every schedule: each node
+  has applied a prefix of the one command log and holds exactly the metadata that prefix leads to.
 
 Not covered: the second sentence (liveness), everything that depends on openraft's replication and election logic,
 the QUIC transport, snapshots (C20).
@@ -340,6 +344,50 @@ theorem C19_local_failure_stops_the_node (s : SmSt) (es : List REntry) (hf : s.f
           rw [hce] at hc; simpa [cmdsOf, hp] using hc
   · obtain ⟨d, h1, h2, _⟩ := applyAll_cmds es s
     exact ⟨d, h1, h2⟩
+
+/-! ### the same statement inside the data-plane model of C22/C23
+
+`Model/Plane.lean` (the model C22 and C23 are proved about, tied to bucket.rs / controller / monitor by the schedule-
+for-schedule correspondence) takes what this property states as its Raft stand-in: one command log, each node applying
+it entry by entry.  That the model really has the property - for every schedule of task steps, per-node applies, lease
+syncs and spawns, with PUTs and the monitor proposing rollovers in between - is a theorem, not an assumption. -/
+
+open WalrusVerif.Plane in
+/-- **Every node of the data-plane model has applied a prefix of the one command log, and holds exactly the metadata
+that prefix leads to** - after any schedule, from any set-up built by `initWorld` / `createTopic`.  Hence the command
+sequences applied on two nodes are prefix-related, and two nodes that applied equally many commands hold the same
+metadata. -/
+theorem C19_plane_nodes_apply_prefixes_of_one_log (w0 : World) (h0 : MdInv w0) (sched : List Act) (a b : Nat)
+    (hab : ((runActs w0 sched).node a).applied ≤ ((runActs w0 sched).node b).applied) :
+    let w := runActs w0 sched
+    (w.log.take (w.node a).applied) <+: (w.log.take (w.node b).applied) ∧
+    (w.node a).md = foldCmds (w.log.take (w.node a).applied) ∧
+    (w.node b).md = foldCmds (w.log.take (w.node b).applied) ∧
+    ((w.node a).applied = (w.node b).applied → (w.node a).md = (w.node b).md) := by
+  intro w
+  have h := mdInv_runActs sched w0 h0
+  refine ⟨List.take_prefix_take_left hab, (h a).2, (h b).2, ?_⟩
+  intro e
+  rw [(h a).2, (h b).2, e]
+
+open WalrusVerif.Plane in
+/-- the set-ups the correspondence runs start from satisfy the hypothesis -/
+theorem C19_plane_setups (n thresh : Nat) (topics : List (Name × Nat)) :
+    MdInv (topics.foldl (fun w p => createTopic w p.1 p.2) (initWorld n thresh)) := by
+  suffices H : ∀ w, MdInv w → MdInv (topics.foldl (fun w p => createTopic w p.1 p.2) w) from H _ (mdInv_initWorld n thresh)
+  induction topics with
+  | nil => intro w h; exact h
+  | cons p r ih => intro w h; exact ih _ (mdInv_createTopic w p.1 p.2 h)
+
+/-- non-vacuity: two nodes, a PUT through node 2 that triggers a rollover proposal; node 1 has applied all four log
+entries, node 2 only three -/
+example : ((Plane.runActs (Plane.createTopic (Plane.initWorld 2 1) ['a'] 1)
+      [.spawn 1 (.putStart 2 ['a'] 7), .step 1, .step 1, .step 1, .step 1, .step 1, .step 1, .step 1, .apply 1]).log.length,
+    ((Plane.runActs (Plane.createTopic (Plane.initWorld 2 1) ['a'] 1)
+      [.spawn 1 (.putStart 2 ['a'] 7), .step 1, .step 1, .step 1, .step 1, .step 1, .step 1, .step 1, .apply 1]).node 1).applied,
+    ((Plane.runActs (Plane.createTopic (Plane.initWorld 2 1) ['a'] 1)
+      [.spawn 1 (.putStart 2 ['a'] 7), .step 1, .step 1, .step 1, .step 1, .step 1, .step 1, .step 1, .apply 1]).node 2).applied) = (4, 4, 3) := by
+  decide +kernel
 
 /-! Non-vacuity: a committed sequence with a membership change, a blank entry and five commands; node 1 (which
 proposed entries 3 and 6) has been fed all of it in two calls, node 2 the first five entries one by one. -/
